@@ -97,3 +97,12 @@ func VfDigests() [][]byte {
 	}
 	return out
 }
+
+// VfDigestInputs exposes the inputs hashed so far.
+func VfDigestInputs() [][]byte {
+	var out [][]byte
+	for _, d := range vfDigests {
+		out = append(out, d.in)
+	}
+	return out
+}
